@@ -19,6 +19,8 @@ type GenState struct {
 	seenReq []string // request ids seen active at some point (for duplicate / late answers)
 	seenCtx []string
 	t0      int64
+	pending int // remaining `next` lines of a burst
+	burstDt int64
 }
 
 var (
@@ -257,6 +259,10 @@ func (r *R) depositFor(ctx sdk.Context, g *hx.Rng, pricing string, already sdkma
 
 func (r *R) Gen(ctx sdk.Context, g *hx.Rng) string {
 	r.lastCtx = ctx
+	if r.G.pending > 0 {
+		r.G.pending--
+		return "service next " + hx.KV("dt", r.G.burstDt)
+	}
 	defs, binds, ctxs, act, resps := r.snapshot(ctx)
 	for _, a := range act {
 		if len(r.G.seenReq) < 200 {
@@ -370,8 +376,8 @@ func (r *R) Gen(ctx sdk.Context, g *hx.Rng) string {
 		pr := r.genPricing(g, now)
 		maxto := r.env.Service.MaxRequestTimeout(ctx)
 		qos := g.Range(1, maxto)
-		if g.Chance(1, 2) {
-			qos = g.Range(1, 4)
+		if g.Chance(4, 5) {
+			qos = g.Range(1, 3)
 		}
 		if g.Chance(1, 25) {
 			qos = g.Range(0, 40)
@@ -481,6 +487,9 @@ func (r *R) Gen(ctx sdk.Context, g *hx.Rng) string {
 			sort.Sort(sort.Reverse(sort.StringSlice(ps)))
 		}
 		cap := fmt.Sprintf("%d:stake", g.Range(1, 120))
+		if g.Chance(1, 2) {
+			cap = fmt.Sprintf("%d:stake", g.Range(100, 400))
+		}
 		switch g.Pick(12, 3, 1, 2) {
 		case 1:
 			cap = g.Amount(95).String() + ":stake"
@@ -498,6 +507,9 @@ func (r *R) Gen(ctx sdk.Context, g *hx.Rng) string {
 		}
 		maxto := r.env.Service.MaxRequestTimeout(ctx)
 		timeout := g.Range(1, 8)
+		if g.Chance(2, 3) {
+			timeout = g.Range(3, 8)
+		}
 		if timeout > maxto {
 			timeout = g.Range(1, maxto)
 		}
@@ -603,6 +615,12 @@ func (r *R) Gen(ctx sdk.Context, g *hx.Rng) string {
 		prov := pick(g, provPool)
 		if len(binds) > 0 && g.Chance(9, 10) {
 			b := binds[g.Intn(len(binds))]
+			for i := 0; i < 8; i++ {
+				if e, _ := r.env.Service.GetEarnedFees(ctx, r.addr(b.prov)); !e.IsZero() {
+					break
+				}
+				b = binds[g.Intn(len(binds))]
+			}
 			own, prov = b.owner, b.prov
 		}
 		if g.Chance(1, 12) {
@@ -685,7 +703,13 @@ func (r *R) Gen(ctx sdk.Context, g *hx.Rng) string {
 	case 15:
 		return "service next " + hx.KV("dt", g.Range(1, 120))
 	default:
-		return "service skip " + hx.KV("n", g.Range(2, 9), "dt", g.Range(1, 60))
+		// a burst of consecutive blocks (one observation per block, so the monitors see every block)
+		r.G.pending = int(g.Range(1, 7))
+		r.G.burstDt = g.Range(1, 60)
+		if g.Chance(1, 40) {
+			return "service skip " + hx.KV("n", g.Range(2, 5), "dt", g.Range(1, 60))
+		}
+		return "service next " + hx.KV("dt", r.G.burstDt)
 	}
 }
 
